@@ -225,6 +225,8 @@ def run(ctx: Ctx):
                 ctx.count("co:reply-loop(the real call does not return; explicit outcome, trace ends)")
             if w[0] in ("dl", "co", "rj"):
                 ctx.count(f"op:{w[0]}:{w[-1] if w[0] != 'dl' else w[1]}")
+            if w[0] == "fsr":
+                ctx.count(f"op:fsr:{w[1]}:{w[2]}")
             if w[0] == "svcin":
                 ctx.count("result:svcin:" + ("raised" if "rej=R" in m else "refused" if "rej=1" in m else "replaced") + (":configured" if len(w) > 1 else ":bare"))
                 if "rej=0" in m:
